@@ -86,6 +86,9 @@ def run_cases(ctx, name, modname, fname, cases, rule, nontrivial=None,
         if fname == 'check_mc_case':
             rule += ('; every third formula also on the structure whose labelling was installed by replace_labelling_function (with an extra '
                      'key that is not a state); CTL* formulas also on a structure carrying atoms named like the reduction\'s markers')
+        if fname == 'check_fresh_case':
+            rule += ('; every query also on the structure whose labelling was installed by replace_labelling_function (with an extra key that '
+                     'is not a state and carries every atom of the formulas)')
     chunk = chunk or max(1, min(2000, len(cases) // (core.NPROC * 4) or 1))
     jobs = [(modname, fname, nontrivial, cases[i:i + chunk])
             for i in range(0, len(cases), chunk)]
